@@ -1,4 +1,5 @@
 import Inkayaku.Proofs.SearchRoot
+import Inkayaku.Proofs.WfStepProof
 import Inkayaku.Model.FenBoard
 /-!
 # C16 (search part) — the info stream of one search is monotone and consistent with the answer
@@ -98,7 +99,7 @@ theorem null_bestmove_no_ponder (s : St) (g : GoParams) (maxIter : Nat) (ponder 
      | _, [] => True
      | b, m :: ms => m ∈ genPseudo b ∧ isValid (make b m) = true ∧ LegalLine (make b m) ms
 
-   theorem pv_legal_line (L : BoardLaws) (s : St) (g : GoParams) (maxIter : Nat) (hinv : Inv (goBudget maxIter) s.board)
+   theorem pv_legal_line (s : St) (g : GoParams) (maxIter : Nat) (hinv : Inv (goBudget maxIter) s.board)
        (d t n sc pvl) (ho : Out.info d t n sc (some pvl) ∈ (goCmd s g maxIter).out) (hnew : Out.info d t n sc (some pvl) ∉ s.out) :
        LegalLine s.board pvl
 
